@@ -125,7 +125,7 @@ def build(desc):
     if t == 'deque':
         ch = [build(c) for c in desc[1]]
         mode = desc[2]
-        maxlen = {'none': None, 'len': len(ch), 'len+2': len(ch) + 2, 'zero': 0}[mode]
+        maxlen = {'none': None, 'len': len(ch), 'len+2': len(ch) + 2, 'zero': 0, 'big': 1000 + len(ch)}[mode]   # big: not a cached small int
         if mode == 'zero':
             ch = []
         dq = deque(ch, maxlen=maxlen)
@@ -296,7 +296,7 @@ _WEIGHT = {'tuple': 3, 'list': 3, 'dict': 4, 'od': 3, 'dd': 3, 'deque': 2, 'nt':
 _LEAF = leaf_descs()
 _META = META
 _HIST = {k: dict_hist(k) for k in ('dict', 'od', 'dd')}
-_DEQUE_MODE = st.sampled_from(['none', 'none', 'len', 'len+2'])
+_DEQUE_MODE = st.sampled_from(['none', 'none', 'len', 'len+2', 'big'])
 _FACT = st.sampled_from(sorted(U.FACTORIES))
 
 
@@ -421,7 +421,7 @@ def with_childless_twins(draw, inner):
     t = draw(inner)
     fam = draw(st.sampled_from(['deque', 'dd', 'cg', 'mixed']))
     if fam == 'deque':
-        twins = [['deque', [], m, []] for m in draw(st.permutations(['none', 'zero', 'len+2']))[:draw(st.integers(2, 3))]]
+        twins = [['deque', [], m, []] for m in draw(st.permutations(['none', 'zero', 'len+2', 'big']))[:draw(st.integers(2, 3))]]
     elif fam == 'dd':
         twins = [['dd', f, [], []] for f in draw(st.permutations(sorted(U.FACTORIES)))[:draw(st.integers(2, 3))]]
     elif fam == 'cg':
@@ -658,7 +658,7 @@ def dict_variant(draw, desc):
             else:
                 c[i] = [nt, items, []]
         elif t == 'deque':
-            c[i] = ['deque', n[1], draw(st.sampled_from(['none', 'len', 'len+2'])), []]
+            c[i] = ['deque', n[1], draw(st.sampled_from(['none', 'len', 'len+2', 'big'])), []]
     return root[0]
 
 
